@@ -999,6 +999,7 @@ func c02PanicClass(msg string) int {
 
 // Do, then DoInto over initial capacities / dirty prefixes; distinct (prefix, error class, output) observations only
 func c02Run(r *rng, cv *j2t.BinaryConv, desc *thrift.TypeDescriptor, doc []byte, full bool) []c02res {
+	r = r.fork() // the sweep's own draws (their number depends on what the implementation did, e.g. a recovered fault) must not shift the case stream
 	ctx := context.Background()
 	var res []c02res
 	seen := map[string]bool{}
